@@ -440,6 +440,7 @@ class Executor:
         local names, fields of objects reachable by name (``self.x``), and the
         ghost/field effects declared by contracts of the calls it contains."""
         names, fields, ghosts, cells = set(), set(), set(), set()
+        fcells = set()     # fields whose cell content (not binding) changes
         lit_iter = {}
         ex = self
 
@@ -463,7 +464,7 @@ class Executor:
                     cells.add(base.id)
                 elif isinstance(base, ast.Attribute) and \
                         isinstance(base.value, ast.Name):
-                    fields.add((base.value.id, base.attr))
+                    fcells.add((base.value.id, base.attr))
                 elif isinstance(base, ast.Call):
                     # e.g. group['x'][...] = v : effect via the contract/model
                     ghosts.add('h5')
@@ -519,7 +520,7 @@ class Executor:
                             cells.add(recv.id)
                         elif isinstance(recv, ast.Attribute) and isinstance(
                                 recv.value, ast.Name):
-                            fields.add((recv.value.id, recv.attr))
+                            fcells.add((recv.value.id, recv.attr))
                     eff = ex.reg.call_effects(ex, n)
                     if eff:
                         for fld in eff.get('fields', ()):
@@ -536,7 +537,8 @@ class Executor:
             v.visit(s)
         if isinstance(node, ast.For):
             target(node.target)
-        return names, fields, ghosts, cells
+        self._fcells = fcells - fields
+        return names, fields | fcells, ghosts, cells
 
     def havoc_value(self, st, v, hint):
         """Fresh value of the same shape/type as v."""
@@ -572,7 +574,7 @@ class Executor:
             return v
         raise OutsideSubset('havoc of {!r}'.format(v))
 
-    def havoc(self, st, names, fields, ghosts, cells=()):
+    def havoc(self, st, names, fields, ghosts, cells=(), fcells=()):
         from .npmodel import MaybeNone
         for nm in sorted(names):
             if nm in st.env:
@@ -600,8 +602,9 @@ class Executor:
                         if isinstance(v.val, Ref):
                             st.set_cell(v.val, self.havoc_value(
                                 st, st.cell(v.val), f))
-                            rec.fields[f] = MaybeNone(
-                                z3.Bool(uid(f + '_none')), v.val)
+                            if (o, f) not in fcells:
+                                rec.fields[f] = MaybeNone(
+                                    z3.Bool(uid(f + '_none')), v.val)
                         continue
                     if isinstance(v, Ref) and not isinstance(st.cell(v), ObjRec):
                         st.set_cell(v, self.havoc_value(st, st.cell(v), f))
@@ -636,7 +639,7 @@ class Executor:
         if is_for:
             # loop targets are bound per iteration, no need to havoc
             pass
-        self.havoc(h, names, fields, ghosts, cells)
+        self.havoc(h, names, fields, ghosts, cells, self._fcells)
         kk = z3.Int(uid('k'))
         h.env[kname] = Sym(kk, 'int')
         h.assume(kk >= 0)
